@@ -50,6 +50,9 @@ def act_space(kind: str) -> spaces.Space:
         return spaces.Box(-1.0, 1.0, (2,), np.float32)
     if kind == "box_asym":
         return spaces.Box(np.array([-2.0, 0.0], np.float32), np.array([1.0, 3.0], np.float32))
+    if kind == "box_tight":
+        # narrower than the target-policy smoothing noise (std 0.2, clip 0.5): the clamp of noisy target actions to the action range is active all the time
+        return spaces.Box(np.array([-0.05, -0.3], np.float32), np.array([0.05, 0.1], np.float32))
     raise ValueError(kind)
 
 
@@ -95,7 +98,7 @@ def gen_agent_cfg(rng: random.Random, algo: Optional[str] = None, algos: Optiona
         if algo in ("DQN", "RainbowDQN", "CQN"):
             cfg["act"] = "discrete"
         elif algo in ("DDPG", "TD3"):
-            cfg["act"] = rng.choice(["box", "box_asym"])
+            cfg["act"] = rng.choice(["box", "box_asym", "box_tight"])
         else:
             cfg["act"] = rng.choice(["discrete", "box"])
     if algo in ("DDPG", "TD3", "PPO"):
